@@ -75,6 +75,14 @@ def plan(plan, tier, seed):
     except AnchorLost as e:
         plan.anchor_errors.append((n9, str(e)))
     plan.dropped.append(vC16.arraypat_fn.__doc__.strip())
+    n10 = "C16.verus.pattern_matches_value.tuple_struct_patterns"
+    plan.ob(n10, "verus", "proved", functions=["src/interpreter/src/patterns.rs: pattern_matches_value_with_semantics (the arm for a tuple-struct pattern `:Name(..)`)"],
+            what="`:Name(p1, .., pn)` matches an enum value holding exactly the variant Name whose payload (if any) matches the single element pattern, or a tuple whose first element is the atom :Name and whose remaining n elements match p1 .. pn left to right in one environment; nothing else matches (this is also how a state machine's state patterns select an arm, C17)")
+    try:
+        plan.verus.append(VerusUnit("c16_tspat", vC16.tspat_unit(vlib.read_repo(vC16.PPATH), feats), {"tuple_struct_arm": n10}, ["canary_tspat"]))
+    except AnchorLost as e:
+        plan.anchor_errors.append((n10, str(e)))
+    plan.dropped.append(vC16.tspat_fn.__doc__.strip())
     n5 = "C16.verus.try_broadcast_user_function.elementwise_over_a_matrix"
     plan.ob(n5, "verus", "proved", functions=["try_broadcast_user_function (whole body)"],
             what="a function with one input and one output of the same scalar kind, called with one matrix argument, returns the matrix of the source's shape assembled from the function applied to each element -- each element once, in element order; an error in any application is an error; in every other situation the broadcast does not apply (and applies the function to nothing)")
